@@ -2370,8 +2370,8 @@ run_null(struct actx *x, const struct fdesc *f, struct call *c, int argi, int el
                         viol(x, "C12", f->name, what, "NULL %s argument (%d%s): error code %d (%s) does not name that argument", kind, argi,
                              elem >= 0 ? ", one array element" : "", err, imb_get_strerror(err));
                 }
-                code_agreement(x, f, pert, err);
         }
+        code_agreement(x, f, pert, err);
         cov_hit("abi_null_code", "%s|arg%d%s|%d", f->name, argi, elem >= 0 ? "elem" : "", err);
         if (g_opt.verbose)
                 ev_printf("{\"ev\":\"abi_code\",\"v\":\"%s\",\"fn\":\"%s\",\"pert\":\"%s\",\"errno\":%d,\"kind\":\"%s\",\"role\":%d}", x->vn,
@@ -2437,8 +2437,8 @@ run_limit(struct actx *x, const struct fdesc *f, struct call *c, int li, const s
                         viol(x, "C12", f->name, what, "limit violated (%s = %#llx): error code %d (%s) does not name that constraint", l.name,
                              (unsigned long long) l.val, err, imb_get_strerror(err));
                 }
-                code_agreement(x, f, pert, err);
         }
+        code_agreement(x, f, pert, signalled && err == 0 ? -1 : err);
         cov_hit("abi_limit_code", "%s|%s|%d", f->name, l.name, signalled && err == 0 ? -1 : err);
         if (g_opt.verbose)
                 ev_printf("{\"ev\":\"abi_code\",\"v\":\"%s\",\"fn\":\"%s\",\"pert\":\"%s\",\"errno\":%d,\"signalled\":%d}", x->vn, f->name, pert,
